@@ -29,7 +29,12 @@ def check_model(case, stats):
     r = model.render(doc)
     lab = model.doc_features(doc)
     stats.case(r.text, nontrivial_doc(lab), sample={"text": r.text}, labels=labels_of(lab))
-    res = gh.parse(r.text, doc["default"])
+    parser = gh.Parser(gh.AstBuilder(gh.IdGenerator()))
+    matcher = gh.TokenMatcher(doc["default"])
+    res = gh.parse(r.text, parser=parser, matcher=matcher)
+    if res[0] == "ok":
+        # the same parser goes on to another document: what was returned for this one must stay as it was
+        gh.parse("# another comment\n@other\nFeature: other\n # c2\n Scenario: o\n  Given o\n   | o |\n", parser=parser, matcher=gh.TokenMatcher("en"))
     if res[0] != "ok":
         raise Violation(case, "well-formed document rejected: %r\n%s" % (res[1][:3], r.text))
     if res[1] != r.ast:
